@@ -115,6 +115,30 @@ fn kinds_agree(v: &J) -> bool {
     }
 }
 
+/// a document nested deeper than serde_json's text parser accepts, built programmatically
+/// (`serde_json::Value` itself has no depth limit): the same round trips as [json_case]
+pub fn json_deep(kind: &str, depth: usize) -> J {
+    use deserr::IntoValue;
+    let mut j: J = json!(7);
+    for i in 0..depth {
+        let arr = match kind { "arr" => true, "obj" => false, _ => i % 2 == 0 };
+        j = if arr { J::Array(vec![j]) } else { let mut m = serde_json::Map::new(); m.insert("k".to_string(), j); J::Object(m) };
+    }
+    rec::reset(vec![], true);
+    let j1 = j.clone();
+    let d1 = std::panic::catch_unwind(move || deserialize::<J, J, Rec<0>>(j1));
+    let calls1 = rec::take_trace().len();
+    let back: J = J::from(j.clone().into_value());
+    let res = json!({
+        "deser_same": matches!(&d1, Ok(Ok(v)) if *v == j),
+        "panicked": d1.is_err(),
+        "calls": calls1,
+        "from_same": back == j,
+        "kinds_agree": kinds_agree(&j),
+    });
+    res
+}
+
 pub fn json_case(text: &str) -> J {
     use deserr::IntoValue;
     let j: J = match serde_json::from_str(text) {
